@@ -111,6 +111,25 @@ def gen_antenna(rng, families=None, max_pulses=25, ground=None, len_jitter=(0.7,
         else:
             w.update(p0=[float(v) for v in top], p1=[float(x), float(y), 0.0])
         wires.append(w)
+    elif fam == 'taper_vee':
+        # two tapered legs (inverted V, bent dipole) each drawn from its tip to the common apex — or from the apex, or one each
+        # way: wire ends of either number meet at the junction of two objects whose first and last segments differ
+        n = rng.randint(5, 8)
+        apex = np.array([rng.uniform(-1, 1) * lam, rng.uniform(-1, 1) * lam, 0.0])
+        d1 = rand_dir(rng)
+        while True:
+            d2 = rand_dir(rng)
+            if float(np.dot(d1, d2)) < 0.4:      # at least about 66 degrees between the legs
+                break
+        how = rng.choice(['in-in', 'in-in', 'out-out', 'in-out', 'out-in'])
+        for d, way in ((d1, how.split('-')[0]), (d2, how.split('-')[1])):
+            tip = apex + d * seg * n
+            w = dict(nseg=n, r=float(min(rad, seg / 40)), tmin=float(lam / 150), tmax=None)
+            if way == 'in':
+                w.update(p0=[float(v) for v in tip], p1=[float(v) for v in apex], segtype=1)
+            else:
+                w.update(p0=[float(v) for v in apex], p1=[float(v) for v in tip], segtype=2)
+            wires.append(w)
     elif fam == 'varray':
         # two or three wires exactly parallel to a coordinate axis (mostly z) on different axes, free space or over ground
         # (elevated): direction cosines that are exactly 0 / 1, positions that are not
